@@ -38,6 +38,7 @@ type c20Case struct {
 	Waiters int    `json:"waiters"`
 	Writers int    `json:"writers,omitempty"`
 	Rounds  int    `json:"waits_per_waiter,omitempty"`
+	After   int    `json:"writes_queued_behind_the_marker,omitempty"`
 }
 
 type c20WaitObs struct {
@@ -65,12 +66,17 @@ func c20Stuck(queueLen func() int) (int, string) {
 	n, onChan := 0, 0
 	where := ""
 	for _, g := range gs {
-		if f := g.topTheineFrame(); strings.HasSuffix(f, ").Wait") && parkedState(g.State) {
-			n++
-			if g.State == "chan receive" || g.State == "chan send" {
-				onChan++
-				where = g.State
-			}
+		// a caller inside Store.Wait: parked in Wait itself or in the event send it makes. Since Wait
+		// selects on the wake-up channel and the cache's cancellation, the parked state is "select"
+		// (it was "chan receive" before that repair; both are accepted).
+		f := g.topTheineFrame()
+		if !(strings.HasSuffix(f, ").Wait") || (strings.HasSuffix(f, ").sendEvent") && g.has(").Wait("))) || !parkedState(g.State) {
+			continue
+		}
+		n++
+		if g.State == "chan receive" || g.State == "chan send" || g.State == "select" {
+			onChan++
+			where = g.State
 		}
 	}
 	if onChan == 0 {
@@ -142,6 +148,14 @@ func c20Phase(r *Run, cs c20Case) {
 	}
 	markersQueued := st.VerifQueueLen() - cs.Preload
 	r.CountMax("max_markers_queued_together", int64(markersQueued))
+	// further writes queued BEHIND the marker(s): the marker is then not the last item of its
+	// batch (with Preload 0 it is the first). Nothing is owed for these writes.
+	for i := 0; i < cs.After && st.VerifQueueLen() < st.VerifQueueCap()-2; i++ {
+		c.Set(1<<20+i, i, 1)
+	}
+	if cs.After > 0 {
+		r.Count("cases_with_writes_queued_behind_a_marker", 1)
+	}
 	if markersQueued >= 2 {
 		r.Count("cases_with_several_markers_queued_together", 1)
 		if cs.Preload/128 == (cs.Preload+markersQueued-1)/128 {
@@ -348,7 +362,7 @@ func c20Judge(r *Run, cs c20Case, obs []c20WaitObs, stuckN int, stuckWhat string
 	r.Count("wait_calls_observed", int64(len(obs)))
 	// position of the markers relative to batch boundaries (phase mode): which batches hold a marker
 	if cs.Mode == "phase" {
-		r.Distinct(fmt.Sprintf("phase/n%d/k%d", cs.Preload, cs.Waiters))
+		r.Distinct(fmt.Sprintf("phase/n%d/k%d/after%d", cs.Preload, cs.Waiters, cs.After))
 	} else if cs.Mode == "steal" {
 		r.Distinct(fmt.Sprintf("steal/a%d/b%d", cs.Preload, cs.Writers))
 	} else {
@@ -479,6 +493,13 @@ func runC20(r *Run) {
 	for _, k := range []int{1, 2, 3, 8, 32} {
 		for _, w := range []int{0, 1, 4, 32} {
 			cases = append(cases, c20Case{Mode: "mixed", Waiters: k, Writers: w, Rounds: r.Pick(30, 300)})
+		}
+	}
+	for _, k := range []int{1, 2} {
+		for _, n := range []int{0, 1, 127} {
+			for _, after := range []int{1, 5, 126, 300} {
+				cases = append(cases, c20Case{Mode: "phase", Preload: n, Waiters: k, After: after})
+			}
 		}
 	}
 	for _, n1 := range []int{0, 1, 126, 127, 128, 255} {
